@@ -1,5 +1,64 @@
 package aggregate
 
+import (
+	sdk "github.com/cosmos/cosmos-sdk/types"
+	authkeeper "github.com/cosmos/cosmos-sdk/x/auth/keeper"
+	authtypes "github.com/cosmos/cosmos-sdk/x/auth/types"
+
+	"github.com/teleport-network/teleport/x/aggregate/keeper"
+	"github.com/teleport-network/teleport/x/aggregate/types"
+	rt "github.com/teleport-network/teleport/zzverifrt"
+)
+
 // VerifC12RegistryAcrossGenesis (shared with the C13 check): a consistent registry exported and imported into a fresh store
 // is consistent again - every pair is found by its contract and by each of its denominations after the round trip.
 func VerifC12RegistryAcrossGenesis() { c13AggregateGenesis() }
+
+// VerifC12ValidatedGenesisImportIsConsistent: the registry a fresh chain starts with. A genesis state is written by hand or
+// by another tool, so the contract address of a pair is ANY spelling the module's own validation accepts (not only the
+// checksummed one the proposals write) and the pairs are any list it accepts. After InitGenesis of a validated state with
+// one or two pairs, every pair is found by its contract and by each of its denominations, the record it is found under is
+// that pair, and no contract or denomination leads to another pair.
+func VerifC12ValidatedGenesisImportIsConsistent() {
+	rt.Override("(github.com/cosmos/cosmos-sdk/x/auth/keeper.AccountKeeper).GetModuleAccount", func(_ authkeeper.AccountKeeper, _ sdk.Context, name string) authtypes.ModuleAccountI {
+		return &authtypes.ModuleAccount{Name: name}
+	})
+	k := keeper.NewKeeper(rt.StoreKey(types.StoreKey), rt.Codec(), rt.Subspace(), nil, nil, nil)
+	n := rt.IntRange("pairs", 1, 2)
+	var pairs []types.TokenPair
+	for i := 0; i < n; i++ {
+		denoms := []string{rt.Str("denom0")}
+		if rt.Bool("twoDenoms") {
+			denoms = append(denoms, rt.Str("denom1"))
+		}
+		addr := rt.Str("erc20Address")
+		rt.Assume(len(addr) == 42) // bound: 0x-prefixed spellings (any letter case); the 40-digit spelling without prefix is outside
+		pairs = append(pairs, types.TokenPair{ERC20Address: addr, Denoms: denoms, Enabled: rt.Bool("pairEnabled"), ContractOwner: types.Owner(rt.U32("owner"))})
+	}
+	gs := types.GenesisState{Params: types.Params{EnableAggregate: rt.Bool("enableAggregate"), EnableEVMHook: rt.Bool("enableEVMHook")}, TokenPairs: pairs}
+	rt.Assume(gs.Validate() == nil)
+	dst := rt.EmptyCtx()
+	if rt.NoPanic("R6-validated-genesis-is-imported-without-panic", func() { InitGenesis(dst, *k, authkeeper.AccountKeeper{}, gs) }) {
+		return
+	}
+	rt.Reach("imported")
+	if n == 2 {
+		rt.Reach("two-pairs")
+	}
+	for _, pair := range pairs {
+		contract := pair.GetERC20Contract()
+		id := k.GetERC20Map(dst, contract)
+		rt.Assert("R6-pair-found-by-its-contract", id != nil)
+		got, found := k.GetTokenPair(dst, id)
+		rt.Assert("R6-contract-entry-points-to-an-existing-pair", found)
+		same := found && got.GetERC20Contract() == contract && len(got.Denoms) == len(pair.Denoms)
+		for j := 0; same && j < len(pair.Denoms); j++ {
+			same = got.Denoms[j] == pair.Denoms[j]
+		}
+		rt.Assert("R6-that-pair-is-the-genesis-pair", same)
+		for _, d := range pair.Denoms {
+			did := k.GetDenomMap(dst, d)
+			rt.Assert("R6-pair-found-by-each-denomination", did != nil && rt.BytesEq(did, id))
+		}
+	}
+}
